@@ -595,10 +595,11 @@ def hfegeom_jobs(Job, cfg=CFG_NDEBUG, tier="quick"):
 
 
 def prefix_jobs(Job, cfg=CFG_NDEBUG, tier="quick"):
-    g = ["VolumeSelector_to_string", "afsp_drive_prefix", "afsp_directory_prefix"]
+    g = ["VolumeSelector_to_string", "afsp_drive_prefix", "afsp_directory_prefix", "afsp_assemble"]
     uw = ["--unwindset", "cstr_append.0:16", "--unwinding-assertions"]
     def J(name, entry, enforce, **kw):
         return Job("D_%s_%s" % (name, cfg[0]), "harness/dfs_prefix.c", entry, enforce=enforce, defines=list(cfg[1]), extract=ext(g), tier=tier, cbmc=uw, **kw)
     return [J("volume_selector_to_string", "h_vol_to_string", ["VolumeSelector_to_string"]),
             J("afsp_drive_prefix", "h_drive_prefix", ["afsp_drive_prefix"]),
-            J("afsp_directory_prefix", "h_directory_prefix", ["afsp_directory_prefix"])]
+            J("afsp_directory_prefix", "h_directory_prefix", ["afsp_directory_prefix"]),
+            J("afsp_assemble", "h_assemble", ["afsp_assemble"])]
